@@ -1,6 +1,6 @@
 """C03 — every operation logs in first and binds its commands to that login's session."""
 import asyncio, struct
-import time_machine
+import time_machine, copy
 import lib, world
 from props import opcommon as oc
 from props import c02
@@ -75,13 +75,16 @@ def run_sequences(rnd, seqs):
             ident = {False: ("%06x" % rnd.randrange(1 << 24), "%02x" % rnd.randrange(256)),
                      True: ("%06x" % rnd.randrange(1 << 24), "%02x" % rnd.randrange(256))}
             now = rnd.randrange(1_600_000_000, 2_000_000_000)
+            prev = None
             for kind in seq:
                 t2 = kind in world.TYPE2_KINDS
                 if t2 not in apis: apis[t2] = world.ScriptedApi(t2, *ident[t2])
                 c = clean_case(rnd, kind); c["id"], c["key"] = ident[t2]
+                if prev is not None and prev["kind"] == kind and rnd.random() < .7:       # the very same request again (a user pressing the button twice): a full exchange again
+                    c["args"] = copy.deepcopy(prev["args"])
                 now += rnd.choice([0, 1, 1, 5, 3600, 86400]); c["now"] = now
                 if kind == 4: c["replies"][1] = world.schedules_reply(rnd, now).hex()
-                texts.append(await apis[t2].run(kind, c["args"], [bytes.fromhex(r) for r in c["replies"]], now)); cases.append(c)
+                texts.append(await apis[t2].run(kind, c["args"], [bytes.fromhex(r) for r in c["replies"]], now)); cases.append(c); prev = c
         return cases, texts
     return asyncio.run(go())
 
@@ -269,6 +272,7 @@ def run(tier, rnd, out):
     kinds = list(range(1, 13))
     seqs = [[a, b] for a in kinds for b in kinds] if tier == "thorough" else [[rnd.choice(kinds), rnd.choice(kinds)] for _ in range(40)]
     seqs += [[rnd.choice(kinds) for _ in range(rnd.randrange(3, 13))] for _ in range(25 if tier == "quick" else 400)]
+    seqs += [[k, k, k] for k in kinds] + [[k, rnd.choice(kinds), k, k] for k in kinds]           # the same operation twice or three times in a row, and again after another one
     cases, texts = run_sequences(rnd, seqs)
     judge(out, "sequences-on-one-object", cases, texts)
     from props import c16
